@@ -120,7 +120,8 @@ func c13Levels() map[string]*network.PrivilegeLevel {
 
 type c13op struct {
 	api      string    // g.cmd g.cmds g.file n.cmd n.cmds n.file n.cfgs n.cfgfile n.cfg
-	opF      *[]string // nil: opoptions.WithFailedWhenContains not given
+	opF      *[]string // nil: opoptions.WithFailedWhenContains not given (else: the list of the LAST one in toks)
+	toks     []c13tok  // the operation options of the call, in call order
 	stop     bool
 	cmds     []string // n.cfg: the config's lines
 	outs     []string
@@ -154,6 +155,134 @@ type c13sess struct {
 	ops      []*c13op
 }
 
+// c13tok is one operation option of a call: "s" WithFailedWhenContains(strs), "t" WithStopOnFailed,
+// "b" an option that returns an error, and operation options of other layers, which
+// generic.NewOperation must skip: "xn" WithNoStripPrompt, "xt" WithTimeoutOps, "xm"
+// WithExactMatchInput (channel), "xp" WithPrivilegeLevel (network), "xf" WithFilterType (netconf).
+// (WithEager is left out: it returns before the device has answered, which desynchronises every
+// later command of the session; not C13's subject.)
+type c13tok struct {
+	kind string
+	strs []string
+}
+
+var errC13BadOption = errors.New("c13: option refuses")
+
+func (o *c13op) hasTok(kind string) bool {
+	for _, k := range o.toks {
+		if k.kind == kind {
+			return true
+		}
+	}
+	return false
+}
+
+// setToks derives what the caller asked for from the option list: the last failure list, any stop
+func (o *c13op) setToks(toks []c13tok) {
+	o.toks, o.opF, o.stop = toks, nil, false
+	for _, k := range toks {
+		switch k.kind {
+		case "s":
+			l := append([]string{}, k.strs...)
+			o.opF = &l
+		case "t":
+			o.stop = true
+		}
+	}
+}
+
+func (o *c13op) goOpts() []util.Option {
+	var oo []util.Option
+	for _, k := range o.toks {
+		switch k.kind {
+		case "s":
+			oo = append(oo, opoptions.WithFailedWhenContains(append([]string{}, k.strs...)))
+		case "t":
+			oo = append(oo, opoptions.WithStopOnFailed())
+		case "xn":
+			oo = append(oo, opoptions.WithNoStripPrompt())
+		case "xt":
+			oo = append(oo, opoptions.WithTimeoutOps(6*time.Second))
+		case "xm":
+			oo = append(oo, opoptions.WithExactMatchInput())
+		case "xp":
+			oo = append(oo, opoptions.WithPrivilegeLevel("configuration"))
+		case "xf":
+			oo = append(oo, opoptions.WithFilterType("subtree"))
+		case "b":
+			oo = append(oo, func(interface{}) error { return errC13BadOption })
+		}
+	}
+	return oo
+}
+
+// prompt the device shows while the operation's lines are answered
+func (o *c13op) prompt() string {
+	if o.isNet() && o.target() == "configuration" {
+		return "router(config)#"
+	}
+	return "router#"
+}
+
+// recOuts: what the channel hands to Record for each device output. With WithNoStripPrompt the
+// prompt that follows the output stays in it.
+func (o *c13op) recOuts() []string {
+	if !o.hasTok("xn") {
+		return o.outs
+	}
+	out := make([]string, len(o.outs))
+	for i, x := range o.outs {
+		if x == "" {
+			out[i] = o.prompt()
+		} else {
+			out[i] = x + "\n" + o.prompt()
+		}
+	}
+	return out
+}
+
+// c13BuildToks lays the failure-related options of o (opF, stop) out as a call's option list: in
+// random order, sometimes preceded by a second WithFailedWhenContains that must lose, and mixed
+// with 0-3 operation options of other layers before / between / after them.
+func c13BuildToks(r *vlib.Rng, s *c13sess, o *c13op) {
+	var toks []c13tok
+	if o.opF != nil {
+		if r.Chance(1, 6) {
+			toks = append(toks, c13tok{"s", c13Subset(r, r.Range(1, 2))}) // overridden by the later one
+		}
+		toks = append(toks, c13tok{"s", append([]string{}, *o.opF...)})
+	}
+	if o.stop {
+		at := r.Intn(len(toks) + 1)
+		toks = append(toks[:at:at], append([]c13tok{{kind: "t"}}, toks[at:]...)...)
+		if r.Chance(1, 10) { // given twice
+			toks = append(toks, c13tok{kind: "t"})
+		}
+	}
+	kinds := []string{"xn", "xt", "xf"}
+	hasEmpty := false
+	for _, c := range o.cmds {
+		hasEmpty = hasEmpty || c == ""
+	}
+	if !hasEmpty {
+		// with WithExactMatchInput the channel waits for the echo of the input; for an empty input
+		// nothing is ever echoed and the call times out (observed on the unchanged tree; C01's subject)
+		kinds = append(kinds, "xm")
+	}
+	if s.network {
+		kinds = append(kinds, "xp", "xp")
+	}
+	nf := []int{0, 0, 1, 1, 1, 2, 2, 3}[r.Intn(8)]
+	for i := 0; i < nf; i++ {
+		at := r.Intn(len(toks) + 1)
+		if len(toks) > 0 && r.Chance(1, 2) {
+			at = 0 // a foreign option in front is what hides everything behind it when the loop stops early
+		}
+		toks = append(toks[:at:at], append([]c13tok{{kind: kinds[r.Intn(len(kinds))]}}, toks[at:]...)...)
+	}
+	o.setToks(toks)
+}
+
 func (o *c13op) isCfg() bool  { return o.api == "n.cfg" }
 func (o *c13op) isOne() bool  { return o.api == "g.cmd" || o.api == "n.cmd" }
 func (o *c13op) isFile() bool { return o.api == "g.file" || o.api == "n.file" || o.api == "n.cfgfile" }
@@ -175,8 +304,16 @@ func strsB(l []string) [][]byte {
 
 func (s *c13sess) line(o *c13op) string {
 	op := "n"
-	if o.opF != nil {
-		op = "s" + vlib.HexList(strsB(*o.opF))
+	if len(o.toks) > 0 {
+		var l []string
+		for _, k := range o.toks {
+			if k.kind == "s" {
+				l = append(l, "s"+vlib.HexList(strsB(k.strs)))
+			} else {
+				l = append(l, k.kind)
+			}
+		}
+		op = strings.Join(l, "/")
 	}
 	cmds := vlib.HexList(strsB(o.cmds))
 	if o.isCfg() {
@@ -192,8 +329,9 @@ func (s *c13sess) line(o *c13op) string {
 	if s.drvGiven {
 		drv = s.drv
 	}
-	return fmt.Sprintf("c13 %s %s %s %s %s %s x%d,%s,%s,%s,%s", o.api, vlib.HexList(strsB(drv)), op, b(o.stop),
-		cmds, vlib.HexList(strsB(o.outs)), s.seg, b(o.crlf), b(o.trail), b(o.noFile), s.mode)
+	// field 4 is the old spelling of a trailing stop option: always 0 now (stop is a token)
+	return fmt.Sprintf("c13 %s %s %s 0 %s %s x%d,%s,%s,%s,%s", o.api, vlib.HexList(strsB(drv)), op,
+		cmds, vlib.HexList(strsB(o.recOuts())), s.seg, b(o.crlf), b(o.trail), b(o.noFile), s.mode)
 }
 
 func c13ParseLine(line string) (*c13sess, error) {
@@ -222,14 +360,24 @@ func c13ParseLine(line string) (*c13sess, error) {
 		return nil, err
 	}
 	s.drvGiven = true
+	var toks []c13tok
 	if f[3] != "n" {
-		l, err := unlist(f[3][1:])
-		if err != nil {
-			return nil, err
+		for _, tk := range strings.Split(f[3], "/") {
+			if strings.HasPrefix(tk, "s") {
+				l, err := unlist(tk[1:])
+				if err != nil {
+					return nil, err
+				}
+				toks = append(toks, c13tok{"s", l})
+			} else {
+				toks = append(toks, c13tok{kind: tk})
+			}
 		}
-		o.opF = &l
 	}
-	o.stop = f[4] == "1"
+	if f[4] == "1" {
+		toks = append(toks, c13tok{kind: "t"})
+	}
+	o.setToks(toks)
 	if o.cmds, err = unlist(f[5]); err != nil {
 		return nil, err
 	}
@@ -238,6 +386,11 @@ func c13ParseLine(line string) (*c13sess, error) {
 	}
 	if o.outs, err = unlist(f[6]); err != nil {
 		return nil, err
+	}
+	if o.hasTok("xn") { // the line carries the recorded outputs: take the kept prompt off again
+		for i, x := range o.outs {
+			o.outs[i] = strings.TrimSuffix(strings.TrimSuffix(x, o.prompt()), "\n")
+		}
 	}
 	x := strings.Split(strings.TrimPrefix(f[7], "x"), ",")
 	if len(x) >= 5 {
@@ -504,6 +657,7 @@ func c13GenOp(r *vlib.Rng, s *c13sess, thorough bool) *c13op {
 	if emptyStr {
 		o.class = "empty-failure-string"
 	}
+	c13BuildToks(r, s, o)
 	return o
 }
 
@@ -531,6 +685,12 @@ func c13GenMalformed(r *vlib.Rng, s *c13sess) *c13op {
 		}
 		o.opF = &e
 		o.class = "empty-failure-string"
+		c13BuildToks(r, s, o)
+	}
+	if len(o.cmds) > 0 && !o.noFile && r.Chance(1, 3) { // an option that returns an error: the call fails, nothing is sent
+		at := r.Intn(len(o.toks) + 1)
+		o.setToks(append(o.toks[:at:at], append([]c13tok{{kind: "b"}}, o.toks[at:]...)...))
+		o.class = "malformed-bad-option"
 	}
 	return o
 }
@@ -888,13 +1048,7 @@ func c13RunSession(s *c13sess) {
 			dev.started = !s.network
 			dev.user, dev.userMode, dev.stray = nil, nil, nil
 		})
-		var oo []util.Option
-		if o.opF != nil {
-			oo = append(oo, opoptions.WithFailedWhenContains(append([]string{}, *o.opF...)))
-		}
-		if o.stop {
-			oo = append(oo, opoptions.WithStopOnFailed())
-		}
+		oo := o.goOpts()
 		eff := c13Eff(drv, o.opF)
 		dom := !c13ContainsAny("", eff) // no empty failure string in force
 		path := ""
@@ -992,13 +1146,7 @@ func c13RunSession(s *c13sess) {
 					dev.started = false
 					dev.user, dev.userMode, dev.stray = nil, nil, nil
 				})
-				var oo2 []util.Option
-				if o.opF != nil {
-					oo2 = append(oo2, opoptions.WithFailedWhenContains(append([]string{}, *o.opF...)))
-				}
-				if o.stop {
-					oo2 = append(oo2, opoptions.WithStopOnFailed())
-				}
+				oo2 := o.goOpts()
 				twin, terr := nd.SendConfigs(o.cmds, oo2...)
 				var twinUser []string
 				dev.Snapshot(func() { twinUser = append([]string{}, dev.user...) })
@@ -1050,7 +1198,7 @@ func c13DropBits(spec string) string {
 
 func runC13(c *ctx) {
 	res := c.res
-	res.Rule = "sessions of 1-4 operations on real generic/network drivers over the CLI simulator: SendCommand(s)/FromFile, SendConfigs/FromFile, SendConfig x driver-level list (absent/empty/1-3 strings) x operation-level list (absent/empty/1-3 strings) x stop-on-failed x 1-7 (thorough -14) commands (some empty) x failure placement none/first/middle/last/several/all/random x outputs embedding in-force strings, not-in-force strings, near misses (prefix, case, split over lines), failure strings containing LF laid across the joint of two consecutive outputs x read segmentation; every SendConfig is re-run as SendConfigs on an identical device and the verdicts compared; malformed stream: empty lists/files, missing files, empty failure strings; direct tie of response.NewResponse/Record/AppendResponse on arbitrary byte outputs over {a,b,LF,space} (random) and every needle of 1-3 bytes x every output of 0-5 bytes over {a,b} (exhaustive). non-trivial = in-domain operation with >= 2 commands or any failed response; distinct by case line"
+	res.Rule = "sessions of 1-4 operations on real generic/network drivers over the CLI simulator: SendCommand(s)/FromFile, SendConfigs/FromFile, SendConfig x driver-level list (absent/empty/1-3 strings) x operation-level list (absent/empty/1-3 strings) x stop-on-failed x 1-7 (thorough -14) commands (some empty) x failure placement none/first/middle/last/several/all/random x outputs embedding in-force strings, not-in-force strings, near misses (prefix, case, split over lines), failure strings containing LF laid across the joint of two consecutive outputs x read segmentation; every SendConfig is re-run as SendConfigs on an identical device and the verdicts compared; every call's operation options are a list in random order (a losing earlier WithFailedWhenContains, WithStopOnFailed twice) mixed with 0-3 operation options of other layers (WithNoStripPrompt, WithTimeoutOps, WithExactMatchInput, netconf WithFilterType, network WithPrivilegeLevel) before/between/after them; malformed stream: empty lists/files, missing files, empty failure strings, an option that returns an error; direct tie of response.NewResponse/Record/AppendResponse on arbitrary byte outputs over {a,b,LF,space} (random) and every needle of 1-3 bytes x every output of 0-5 bytes over {a,b} (exhaustive). non-trivial = in-domain operation with >= 2 commands or any failed response; distinct by case line"
 	var sessions []*c13sess
 	if c.replay != "" {
 		s, err := c13ParseLine(c.replay)
@@ -1114,6 +1262,26 @@ func runC13(c *ctx) {
 			res.Count("placement:" + o.pattern)
 			res.Count("commands:" + strconv.Itoa(len(o.cmds)))
 			res.Count("stop-on-failed:" + c13Bit(o.stop))
+			if !s.direct {
+				nf, seenForeign, hidden := 0, false, false
+				for _, k := range o.toks {
+					switch {
+					case strings.HasPrefix(k.kind, "x"):
+						nf++
+						seenForeign = true
+						res.Count("foreign-option:" + k.kind)
+					case k.kind == "s" || k.kind == "t":
+						hidden = hidden || seenForeign
+					}
+				}
+				res.Count("foreign-options-in-call:" + strconv.Itoa(nf))
+				if hidden {
+					res.Count("options:failure-option-after-a-foreign-option")
+				}
+			}
+			if o.hasTok("b") && len(o.user) > 0 {
+				res.Fail("correspondence", line, fmt.Sprintf("an operation option returned an error, yet lines were sent: %q", o.user), "bad-option-sent")
+			}
 			switch {
 			case o.opF == nil:
 				res.Count("op-list:absent")
